@@ -150,6 +150,7 @@ func checkC17(cfg *core.Config) int {
 	nameFamilies := [][]string{
 		{"alpha", "alto"}, {"pkg1", "pkg10", "pkg12"}, {"models", "models2"}, {"a", "ab", "abc"},
 		{"server", "service", "shared"}, {"x", "y"}, {"api", "app"}, {"data", "database"}, {"v1", "v2"}, {"gob", "gopher"},
+		{"Store", "store"}, {"api", "API", "Api"}, {"shopA", "shopa"}, // differing by case only (distinct directories on this file system)
 	}
 	var cases []c17Case
 	addCase := func(kind, cwd string, files []string, wantErr bool) {
